@@ -692,6 +692,58 @@ func appInputX(r *ref.SplitMix64, i int) (in []byte, frames []byte, known bool) 
 		}
 		return in, frames, true
 	}
+	if i%23 == 8 {
+		// frames that are sent again and again (a base station's 1005/1006, its 1033),
+		// some of the copies damaged in their CRC bytes only or in one payload bit: a
+		// damaged copy is not a frame, however often the good one has been seen
+		var base [][]byte
+		for j := r.Range(1, 3); j > 0; j-- {
+			f := gen.RandFrame(r).Bytes
+			if r.Chance(1, 2) {
+				t := 1005 + r.Intn(2)
+				f = ref.Frame(ref.EncodeBase(gen.RandBase(r, t), t))
+			}
+			if len(f) < 9 {
+				continue
+			}
+			base = append(base, f)
+		}
+		if len(base) == 0 {
+			base = append(base, ref.Frame(ref.EncodeBase(gen.RandBase(r, 1005), 1005)))
+		}
+		for j := r.Range(4, 12); j > 0; j-- {
+			f := base[r.Intn(len(base))]
+			if r.Chance(1, 3) {
+				g := append([]byte(nil), f...)
+				n := len(g)
+				switch r.Intn(3) {
+				case 0:
+					g[n-1-r.Intn(3)] ^= 1 << uint(r.Intn(8))
+				case 1:
+					g[n-3], g[n-1] = g[n-1], g[n-3]
+				default:
+					g[r.Range(5, n-4)] ^= 1 << uint(r.Intn(8))
+				}
+				// a damaged copy must not contain a start byte of its own, or what the
+				// framing rules make of its tail is not known by construction
+				ok := !ref.IsFrame(g)
+				for _, b := range g[1:] {
+					if b == 0xd3 {
+						ok = false
+					}
+				}
+				if ok {
+					in = append(in, g...)
+					in = append(in, f...) // and the good one again right after it
+					frames = append(frames, f...)
+					continue
+				}
+			}
+			in = append(in, f...)
+			frames = append(frames, f...)
+		}
+		return in, frames, true
+	}
 	if i%23 == 14 {
 		// the message types a base station really sends besides observations: antenna and
 		// receiver descriptors with their counted strings (1007, 1008, 1033), text (1029),
@@ -807,7 +859,7 @@ func appInputX(r *ref.SplitMix64, i int) (in []byte, frames []byte, known bool) 
 
 // appInput generates an input for the applications.
 func appInput(r *ref.SplitMix64, i int) []byte {
-	if i%23 == 11 || i%23 == 17 || i%23 == 14 || i%23 == 5 {
+	if i%23 == 11 || i%23 == 17 || i%23 == 14 || i%23 == 5 || i%23 == 8 {
 		in, _, _ := appInputX(r, i)
 		return in
 	}
@@ -1026,6 +1078,11 @@ func monC11(c *child.Ctx, replay json.RawMessage) {
 				k.Display, k.Record = i%4 >= 2, i%2 == 1
 				if k.Display && len(in) > 3000 && i%23 != 11 {
 					k.Input = hexs(in[:3000])
+				}
+				if i%5 == 2 && (k.Display || k.Record) {
+					// no log directory in the configuration: the logs go to the current directory
+					k.DefaultLogDir = true
+					c.Count("cases_without_a_log_directory_in_the_configuration", 1)
 				}
 			}
 			if i == 9 {
